@@ -197,9 +197,45 @@ def or_default(check: Check, repo, rep) -> None:
     apply(check, repo, rep, "OR-DEFAULT", lambda rel: rel.startswith(MATCH_FILES_PREFIX) or rel in ("src/pest/parser.py", "src/pest/state.py", "src/pest/stack.py", "src/pest/pairs.py"))
 
 
+POSITION_FIELDS = ("pos", "furthest_pos")
+
+
+def absolute_constants(check: Check, repo) -> None:
+    """ABS-CONST: no position field is assigned a literal offset (only the -1 'nothing recorded' sentinel)."""
+    n_sites = 0
+    for rel in repo.py_files:
+        if "/codegen/" in rel and not rel.endswith("generate.py"):
+            continue
+        m = repo.mod(rel)
+        for n in ast.walk(m.tree):
+            if not isinstance(n, (ast.Assign, ast.AnnAssign)):
+                continue
+            tgts = n.targets if isinstance(n, ast.Assign) else [n.target]
+            val = n.value
+            if val is None:
+                continue
+            for t in tgts:
+                if not (isinstance(t, ast.Attribute) and t.attr in POSITION_FIELDS):
+                    continue
+                recv = ast.unparse(t.value)
+                if recv == "self" and not (rel.endswith("state.py")):
+                    # `self.pos` of the grammar scanner / token parser / Stream: positions in other texts
+                    continue
+                n_sites += 1
+                is_const = isinstance(val, ast.Constant) and isinstance(val.value, int) and not isinstance(val.value, bool)
+                neg = isinstance(val, ast.UnaryOp) and isinstance(val.op, ast.USub) and isinstance(val.operand, ast.Constant)
+                ok = not is_const or neg
+                q = qualname_of(m, n)
+                construct = f"{rel}::{q}"
+                sig = f"{t.attr} is assigned a literal offset"
+                check.oblige("ABS-CONST", construct, f"`{ast.unparse(n)[:60]}`: not a literal offset" if ok else sig, ok,
+                             finding=Finding("ABS-CONST", construct, sig, f"{q}: `{ast.unparse(n)}` is an absolute offset; parsing text at start_pos=k would report it where parsing text[k:] at 0 reports k less", {}))
+    check.count("position_field_writes", n_sites)
+
+
 def run(tier: str) -> Check:
     check = Check("C16", tier, EXPLANATION)
-    check.rules = ["POS", "ABSPOS", "INPUT-ACCESS", "PATTERN-FRAGMENT", "SEED", "OR-DEFAULT"]
+    check.rules = ["POS", "ABSPOS", "INPUT-ACCESS", "PATTERN-FRAGMENT", "SEED", "OR-DEFAULT", "ABS-CONST"]
     check.assumptions = [
         "str.startswith(x, pos), str.find(x, pos) and pattern.match(s, pos) do not consult characters before pos (match() with a pos argument treats ^ as matching at the real start only, hence the anchor scan)",
         "grammars using SOI are outside the property",
@@ -210,6 +246,8 @@ def run(tier: str) -> Check:
     pattern_fragments(check, repo)
     seeding(check, repo)
     or_default(check, repo, rep)
+    absolute_constants(check, repo)
+    check.floor("position_field_writes", 10)
     check.floor("input_accesses", 12)
     check.floor("template_input_lines", 10)
     check.floor("pattern_fragments", 8)
